@@ -12,6 +12,8 @@ import LncModel.Mnemonic
 import LncModel.Sid
 import LncModel.Stream
 import LncModel.Flush
+import LncModel.Cipher
+import LncModel.Record
 /-
   Line-protocol driver: one operation per input line, one canonical result per
   output line.  Imports model files only (no Mathlib, no proofs) so it links as
@@ -201,6 +203,38 @@ def pureStep (toks : List String) : String :=
           let r := Lnc.Mailbox.Flush.flushOnce p b1 b2
           go r.p rest (acc ++ [s!"{r.nn}:{showBool r.err}:{r.out.length}"])
       ";".intercalate (go ⟨hdr, body⟩ bs [])
+    | _, _ => "bad-op"
+  | ["cs.after", R, k] =>
+    match R.toNat?, k.toNat? with
+    | some R, some k =>
+      let c := Lnc.Mailbox.Cipher.CS.after R k Lnc.Mailbox.Cipher.CS.init
+      s!"{c.epoch} {c.nonce}"
+    | _, _ => "bad-op"
+  | ["rec.read", dir, lens, segs] =>
+    -- lens: plaintext lengths of the records the authentic peer wrote in direction dir
+    -- segs: h<use>:<from>:<to> | o<use>:<from>:<to> | j<n>, comma separated
+    match dir.toNat?, (if lens = "none" then some [] else (lens.splitOn ",").mapM String.toNat?) with
+    | some dir, some ls =>
+      let recs : List Bytes := ls.map fun n => List.replicate n 0
+      let parseSeg (t : String) : Option (List Lnc.Mailbox.Record.SByte) :=
+        if t.startsWith "j" then (t.drop 1).toString.toNat?.map fun n => List.replicate n .junk
+        else
+          let d := if t.startsWith "h" then some dir else if t.startsWith "o" then some (1 - dir) else none
+          match d, ((t.drop 1).toString.splitOn ":").mapM String.toNat? with
+          | some d, some [u, a, b] => some ((List.range (b - a)).map fun i => .hon d u (a + i))
+          | _, _ => none
+      match (if segs = "none" then some [] else (segs.splitOn ",").mapM parseSeg) with
+      | some ss =>
+        -- the harness stops after three consecutive errors (a latched reader never consumes the wire)
+        let all := Lnc.Mailbox.Record.readLoop recs 200 ⟨dir, 0, false⟩ ss.flatten
+        let res := (all.foldl (fun (acc : List Lnc.Mailbox.Record.Res × Nat) r =>
+          if acc.2 ≥ 3 then acc else
+          match r with
+          | .ok j => (acc.1 ++ [.ok j], 0)
+          | .err => (acc.1 ++ [.err], acc.2 + 1)) ([], 0)).1
+        if res.isEmpty then "none" else
+        ",".intercalate (res.map fun r => match r with | .ok j => s!"ok:{j}" | .err => "err")
+      | none => "bad-op"
     | _, _ => "bad-op"
   | ["q.mks", n] => (n.toNat?).elim "bad-op" fun n => toString (mkS n)
   | _ => "bad-op"
